@@ -1318,4 +1318,153 @@ func (x *H) sectionImport(r *hx.Rng, scale int) {
 		}
 	}
 	x.run.Notes["import_cases"] = n
+	x.sectionImportKnownPrefix(r.Fork(11), scale)
+}
+
+// 7b. batches that START WITH ALREADY-IMPORTED blocks (canonical, or a known side block) or with a known block and a valid new
+//     one, followed by a block whose header violates exactly one rule while its body and state are fine. insertChain consumes
+//     the VerifyHeaders results by position, one receive per block: the error must come at the invalid item's index, the item
+//     must not be stored nor become head. Through InsertChain (blocks) and InsertHeaderChain (headers; also judged by the model).
+func (x *H) sectionImportKnownPrefix(r *hx.Rng, scale int) {
+	cfgs := []cfgT{builtin()[5], builtin()[2], builtin()[4], builtin()[1]}
+	ctx := context.Background()
+	rules := []string{"extra-33", "time-equals-parent", "difficulty+1", "difficulty-1", "gaslimit-moved-by-parent/1024", "gaslimit-4999", "gasused>gaslimit", "number-gap", "time-plus-2^64"}
+	n := 0
+	for i := 0; i < 20*scale; i++ {
+		c := cfgs[i%len(cfgs)]
+		cc := c.c
+		eng := aquahash.NewFaker()
+		gdb := aquadb.NewMemDatabase()
+		gspec := &core.Genesis{Config: cc}
+		genesis := gspec.MustCommit(gdb)
+		nMain := 3 + r.Intn(8)
+		if c.spec == "@testnet2" && r.Intn(2) == 0 {
+			nMain = 5 + r.Intn(16)
+		}
+		mainB, _ := core.GenerateChain(ctx, cc, genesis, eng, gdb, nMain, nil)
+		P := mainB[len(mainB)-1]
+		branchB, _ := core.GenerateChain(ctx, cc, P, eng, gdb, 2, nil)
+		off := int64(-1 - r.Intn(8))
+		branchA, _ := core.GenerateChain(ctx, cc, P, eng, gdb, 2, func(i int, gen *core.BlockGen) { gen.OffsetTime(off) })
+		branchC, _ := core.GenerateChain(ctx, cc, branchB[1], eng, gdb, 2, nil)
+		canon := append(append(types.Blocks{}, mainB...), branchB...)
+		for shape := 0; shape < 3; shape++ {
+			rule := r.Intn(len(rules))
+			for _, blockMode := range []bool{true, false} {
+				db := aquadb.NewMemDatabase()
+				gspec.MustCommit(db)
+				bc, err := core.NewBlockChain(ctx, db, nil, cc, eng, vm.Config{})
+				if err != nil {
+					continue
+				}
+				if _, err := bc.InsertChain(canon); err != nil {
+					x.run.Violate("setup", "setup-canon", c.spec, err.Error())
+					hx.Safe(func() string { bc.Stop(); return "" })
+					continue
+				}
+				var prefix types.Blocks
+				var victim, vparent *types.Block
+				shapeName := ""
+				switch shape {
+				case 0:
+					k := 1 + r.Intn(3)
+					if k > len(canon) {
+						k = len(canon)
+					}
+					prefix, victim, vparent, shapeName = canon[len(canon)-k:], branchC[0], branchB[1], fmt.Sprintf("known-canonical-%d", k)
+				case 1:
+					if _, err := bc.InsertChain(types.Blocks{branchA[0]}); err != nil {
+						x.run.Violate("setup", "setup-side", c.spec, err.Error())
+					}
+					prefix, victim, vparent, shapeName = types.Blocks{branchA[0]}, branchA[1], branchA[0], "known-side"
+				case 2:
+					prefix, victim, vparent, shapeName = types.Blocks{branchB[1], branchC[0]}, branchC[1], branchC[0], "known-then-valid-new"
+				}
+				th := withVersion(cc, victim.Header())
+				switch rule {
+				case 0:
+					th.Extra = make([]byte, 33)
+				case 1:
+					th.Time = new(big.Int).Set(vparent.Time())
+				case 2:
+					th.Difficulty = new(big.Int).Add(th.Difficulty, big.NewInt(1))
+				case 3:
+					th.Difficulty = new(big.Int).Sub(th.Difficulty, big.NewInt(1))
+				case 4:
+					th.GasLimit = vparent.GasLimit() + vparent.GasLimit()/1024
+				case 5:
+					th.GasLimit = 4999
+				case 6:
+					th.GasUsed = th.GasLimit + 1
+				case 7:
+					th.Number = new(big.Int).Add(th.Number, big.NewInt(1))
+					th.Version = cc.GetBlockVersion(th.Number)
+				case 8:
+					th.Time = new(big.Int).Add(th.Time, new(big.Int).Lsh(big.NewInt(int64(1+r.Intn(5))), 64))
+				}
+				X := types.NewBlockWithHeader(th).WithBody(victim.Transactions(), victim.Uncles())
+				batchBlocks := append(append(types.Blocks{}, prefix...), X)
+				var batch []*types.Header
+				for _, b := range batchBlocks {
+					batch = append(batch, withVersion(cc, b.Header()))
+				}
+				var stored []*types.Header
+				stored = append(stored, withVersion(cc, genesis.Header()))
+				for _, b := range canon {
+					stored = append(stored, withVersion(cc, b.Header()))
+				}
+				if shape == 1 {
+					stored = append(stored, withVersion(cc, branchA[0].Header()))
+				}
+				mode := "headers"
+				if blockMode {
+					mode = "blocks"
+				}
+				tag := fmt.Sprintf("import %s %s rule=%s mode=%s main=%d", c.spec, shapeName, rules[rule], mode, nMain)
+				x.run.Current(tag)
+				now := time.Now().Unix()
+				var ierr error
+				var idx int
+				res := hx.Safe(func() string {
+					if blockMode {
+						idx, ierr = bc.InsertChain(batchBlocks)
+					} else {
+						idx, ierr = bc.InsertHeaderChain(batch, 1)
+					}
+					return ""
+				})
+				xh := X.Header()
+				xStored := bc.GetBlock(X.Hash(), X.NumberU64()) != nil || bc.GetHeader(xh.Hash(), xh.Number.Uint64()) != nil
+				xHead := bc.CurrentBlock().Hash() == X.Hash() || bc.CurrentHeader().Hash() == X.Hash()
+				out := "ok"
+				switch {
+				case res != "":
+					out = "panic"
+				case ierr != nil && strings.Contains(ierr.Error(), "non contiguous"):
+					out = "err noncontiguous 0 0"
+				case ierr != nil && strings.HasPrefix(ierr.Error(), "future block"):
+					out = fmt.Sprintf("err %d future %d %d", idx, b2i(xStored), b2i(xHead))
+				case ierr != nil:
+					out = fmt.Sprintf("err %d %s %d %d", idx, strings.TrimPrefix(class(ierr), "err "), b2i(xStored), b2i(xHead))
+				}
+				x.run.Count("import-known-prefix[" + mode + "," + shapeName[:10] + "," + rules[rule] + "]:" + strings.Join(strings.Fields(out)[:min(3, len(strings.Fields(out)))], "-"))
+				bad := out == "panic" || xStored || xHead
+				if rule != 7 && (ierr == nil || idx != len(batch)-1) {
+					bad = true // the header error must be reported at the invalid item's own index
+				}
+				if bad {
+					x.run.Violate("invalid-batch-imported", "invalid-batch-imported known-prefix "+mode,
+						map[string]string{"config": c.spec, "mode": mode, "shape": shapeName, "rule": rules[rule], "stored": renderList(stored), "batch": renderList(batch)},
+						fmt.Sprintf("%s import of [%s, block violating %s]: result %q, invalid item stored=%v head=%v; expected an error at index %d and the item neither stored nor head",
+							mode, shapeName, rules[rule], out, xStored, xHead, len(batch)-1))
+				}
+				if !blockMode {
+					x.run.Case(fmt.Sprintf("ihc %s %d %s %s", c.spec, now, renderList(stored), renderList(batch)), out)
+					n++
+				}
+				hx.Safe(func() string { bc.Stop(); return "" })
+			}
+		}
+	}
+	x.run.Notes["import_known_prefix_cases"] = n
 }
